@@ -151,7 +151,20 @@ func (e *Engine) merge2(a, b *State) *State {
 	if !disj.IsTrue() {
 		out.pc = append(out.pc, disj)
 	}
-	out.derived = append(append([]*smt.Term{}, a.derived...), b.derived...)
+	// union without duplicates (both sides usually share almost all of them: concatenating doubles the list per join)
+	out.derived = append([]*smt.Term{}, a.derived...)
+	if len(b.derived) > 0 {
+		seen := make(map[int]bool, len(a.derived))
+		for _, d := range a.derived {
+			seen[d.ID] = true
+		}
+		for _, d := range b.derived {
+			if !seen[d.ID] {
+				seen[d.ID] = true
+				out.derived = append(out.derived, d)
+			}
+		}
+	}
 	litsO := append([]*smt.Term{}, lo...)
 	if len(ld) == 1 {
 		litsO = append(litsO, c.Not(ld[0]))
